@@ -38,6 +38,7 @@ PROPS = {
             "C08_resolve_error_is_unresolved_call": [],
             "C08_label_points_to_body": [],
             "C08_label_of_position": [],
+            "C08_main_has_no_label": [],
             "C08_example_super_spec": [],
             "C08_example_super_compiled": [],
             "C08_example_super_label": [],
@@ -56,11 +57,14 @@ PROPS = {
                "site.static_call", "caller.depth0", "caller.depth1", "caller.depth2", "import.super",
                "corner.super_only_import_fn", "corner.super_only_import_module", "corner.super_only_import_limit",
                "corner.import_target_missing", "corner.module_import_target_missing", "corner.priority_absolute",
-               "corner.priority_own_module", "corner.priority_import", "corner.priority_relative_over_module_import"],
+               "corner.priority_own_module", "corner.priority_import", "corner.priority_relative_over_module_import",
+               "corner.call_main", "obs.procedure_not_found"],
         rule="nine planted corner cases of the lookup order (imports made of `super` segments only - function import, module import, "
              "one `super` too many; an import whose key matches but whose target is missing, for both import rules; the priority "
              "absolute > own module > import with the same name declared in all three places, in two, in one; a relative dotted "
-             "path against a module import of the same first segment), then "
+             "path against a module import of the same first segment), five planted calls of the entry function `main` (static Call and "
+             "Function value + DynamicCall, from the root, from a submodule, from depth 2 with an import super.super.main: known "
+             "finding N-C08-3, code 10 only for compile Ok + ProcedureNotFound(handle of main)), then "
              "random module trees (depth <= 3, the same six function names reused in every module, sibling / parent / child "
              "imports of functions and of modules with 0-3 `super.`, too many `super.`, a module called xsuper) with ONE call "
              "site each (static Call or Function value + DynamicCall, from a function of a random module) naming its target "
@@ -89,7 +93,7 @@ PROPS = {
             "C08_call_resolves describes the call skeleton (FunctionPointer / CallFunction instructions in program order); the other "
             "instructions of the program are the subject of C10",
             "label distinctness (32-bit keys of function and closure labels pairwise distinct) is the decidable hypothesis "
-            "label_keys_distinct of the label theorems; main has no label (a static call of main compiles but fails at run time)",
+            "label_keys_distinct of the label theorems; main has no label (a static call of main compiles but fails at run time: known finding N-C08-3, C08_main_has_no_label)",
         ],
     ),
     "C10": dict(
